@@ -74,6 +74,7 @@ func c42Server() *vgirpc.Server {
 }
 
 var c42Seq atomic.Int64
+var c42NoReturn atomic.Int32
 
 type c42Listener struct {
 	kind     string
@@ -365,6 +366,9 @@ func c42Line(c *Case, l *c42Listener, line string, f []string) string {
 		wait := 2*l.idle + 15*time.Millisecond
 		if l.idle > 0 && open == 0 && !l.lastZero.IsZero() {
 			wait = l.idle + 1500*time.Millisecond // it must return; waiting ends as soon as it does
+			if c42NoReturn.Load() >= 3 {
+				wait = l.idle + 150*time.Millisecond // it evidently never does (defect already reported): stop paying for it
+			}
 		}
 		if l.idle == 0 {
 			wait = 60 * time.Millisecond
@@ -389,6 +393,9 @@ func c42Line(c *Case, l *c42Listener, line string, f []string) string {
 				c.Oracle("socket-not-removed", "RunUnix returned but the socket file still exists")
 			}
 			return "returned " + m
+		}
+		if l.idle > 0 && open == 0 && !l.lastZero.IsZero() {
+			c42NoReturn.Add(1)
 		}
 		c.Stat("idle-serving")
 		// still serving: with open connections it must also still ACCEPT
